@@ -232,9 +232,34 @@ def run_property(pid, tier, seed, verbose=False):
     for n in undecided_notes:
       print(f'UNDECIDED property={pid} {n}')
     return 2
+  if tier == 'thorough' and not os.environ.get('VERIF_REPO'):
+    audit = mutation_audit(pid)
+    if audit is not None:
+      try:
+        ev = json.load(open(ev_path))
+        ev['coverage']['mutation_audit'] = audit
+        write_json(ev_path, ev)
+      except Exception:  # pylint: disable=broad-except
+        pass
   print(f'OK property={pid} obligations={len(obs)} discharged={len(obs) - len(refuted)} '
         f'paths={p.paths} wall={time.time() - t0:.1f}s')
   return 0
+
+
+def mutation_audit(pid):
+  """thorough tier: kill-audit of this check on scratch copies (tools/mutaudit.py); evidence only, never the verdict."""
+  path = os.path.join(VERIF, 'mutants', 'mutants.json')
+  if not os.path.exists(path) or pid not in json.load(open(path)):
+    return None
+  r = subprocess.run([sys.executable, os.path.join(VERIF, 'tools', 'mutaudit.py'), pid], capture_output=True, text=True,
+                     env=dict(os.environ, VERIF_TIER='quick'))
+  for line in r.stdout.splitlines():
+    if line.startswith('MUTATION-AUDIT '):
+      res = json.loads(line[len('MUTATION-AUDIT '):])
+      print(f"  mutation audit: {res['killed']} breaking mutants detected, {res['equivalent_ok']} equivalent mutants left alone, "
+            f"undecided: {len(res.get('undecided', []))}, survived: {res['survived']}, false alarms: {res['false_alarm']}")
+      return res
+  return {'error': (r.stdout + r.stderr)[-500:]}
 
 
 def native_fallback(p, pid, reason, seed, tier):
